@@ -1159,5 +1159,7 @@ fn run_case_t<T: Pay>(ops: &[Vec<u64>]) -> Vec<Vec<u64>> {
     PAYLOAD_ADDR.store(0, SeqCst);
     COUNT_ADDR.store(0, SeqCst);
     obs.push(vec![901, c.bad_read, c.bad_destroy, c.unknown_dealloc, c.panics]);
+    // what this run really used (checked against the case header by the driver): payload with drop glue, handle kind
+    obs.push(vec![902, c.has_drop as u64, hk]);
     obs
 }
